@@ -22,6 +22,7 @@ func init() {
 	beModes["janitor"] = (*beRun).modeJanitor
 	beModes["evict"] = (*beRun).modeEvict
 
+	beOracles["C11"] = (*beRun).oracleC11Conc
 	gens["C10"] = genC10
 	gens["C11"] = genC11
 	gens["C12"] = genC12
@@ -239,7 +240,12 @@ func jitClass(j float64) string {
 // Root-driven: writes and clock jumps by the root, the real janitor runs as a scheduled task
 // whenever the simulated clock crosses DeleteExpiredJobInterval.
 
-func genC11(r *rand.Rand, _ int, _ string) *Scenario {
+func genC11(r *rand.Rand, run int, _ string) *Scenario {
+	if run%5 == 4 {
+		// concurrent variant: clients rewrite long-expired keys while the cleanup cycle is running
+		return genJanitorRace(r)
+	}
+
 	sc := genBEBase(r, "janitor")
 	be := sc.BE
 	dea := pick(r, sec, 10*sec, 60*sec, 3600*sec, 24*3600*sec)
@@ -805,4 +811,74 @@ func (r *beRun) restoreNever(m *refModel, i int, op *BEOp) {
 	now := time.Now().UnixNano()
 	m.m[key] = &mEntry{val: tok, never: true, writeLo: now, writeHi: now}
 	r.e.logf("restored %q without expiry", key)
+}
+
+// oracleC11Conc (concurrent variant of C11): fresh entries survive any number of cleanup cycles,
+// also when they were written while a cycle was in progress.
+func (r *beRun) oracleC11Conc() {
+	if r.sc.Mode != "conc" {
+		return
+	}
+
+	out := r.e.out
+	last := map[string]*beRec{}
+
+	for _, rec := range r.recs {
+		if rec.done && (rec.kind == "write" || rec.kind == "delete" || rec.kind == "deleteAll") {
+			if p := last[rec.key]; p == nil || rec.ret > p.ret {
+				last[rec.key] = rec
+			}
+		}
+	}
+
+	cycles := 0
+	if r.janitor != nil {
+		cycles = len(r.janitor.WakeSeqs)
+	}
+
+	for k, w := range last {
+		if w.kind != "write" || (w.op.HasTTL && w.op.TTLNs < 0) {
+			continue
+		}
+
+		// no other write/delete of the key overlapped this one
+		clean := true
+
+		for _, o := range r.recs {
+			if o != w && o.key == k && (o.kind == "write" || o.kind == "delete") && overlapping(o.inv, o.ret, w.inv, w.ret) {
+				clean = false
+			}
+		}
+
+		if !clean {
+			continue
+		}
+
+		overl := false
+
+		if r.janitor != nil {
+			for i, ws := range r.janitor.WakeSeqs {
+				if i+1 < len(r.janitor.BlockSeqs) && ws < w.ret && r.janitor.BlockSeqs[i+1] > w.inv {
+					overl = true
+				}
+			}
+		}
+
+		if overl {
+			out.probe("fresh_write_during_cleanup_cycle")
+		}
+
+		v, err := r.bk.read(context.Background(), []byte(k))
+		if err != nil || v != interface{}(w.tok) {
+			class := "fresh-entry-removed"
+			if overl {
+				class = "fresh-entry-written-during-cycle-removed"
+			}
+
+			out.violate("C11.R1", r.sc.Backend+" "+class, "key %q was written with a fresh value %v (completed at seq %d), no client deleted it, %d cleanup cycles ran, and now Read gives (%v, %v)", k, w.tok, w.ret, cycles, v, err)
+		}
+	}
+
+	out.NonTrivial = cycles > 0 && len(r.recs) > 0
+	out.Outcome = fmt.Sprintf("conc cycles=%d ops=%d", cycles, len(r.recs))
 }
